@@ -56,6 +56,25 @@ def boundary_cases(ck, tier):
     c['budget_mode'] = ['hi-bites', 'lo-bites', 'pair-median-lo', 'pair-median-hi', 'pair-median-lo'][j % 5]
     c['history'] = 'longer-window-first'
     out.append(c)
+  # a low rho_max: designs whose groups correlate better than the planning bound need LESS than the optimistic budget of
+  # their treatment group, so the per-design lower budget bound is the only thing that rejects them
+  for j in range(common.sz(tier, 8, 60)):
+    c = search.gen_case(ck.seed * 17 + 700 + j, tier, max_geos=5)
+    rj = __import__('random').Random(ck.seed * 17 + 700 + j)
+    nd = len(c['rows'][0])
+    walk = [50.0]
+    for _ in range(nd - 1):
+      walk.append(walk[-1] + rj.gauss(0, 2.0))
+    c['rows'] = [[round((s * w + rj.gauss(0, 0.15 * s)) * 8) / 8 for w in walk] for s in rj.sample([1, 2, 3, 5, 8], rj.randint(3, 5))]
+    c['elig'] = {str(g + 1): rj.choice(['ctx', 'ctx', 'ct', 'cx', 'tx']) for g in range(len(c['rows']))}
+    c['par'] = {'n_test': 4, 'iroas': 1.0, 'n_designs': rj.choice([5, 50]), 'n_pretest_max': 90, 'rho_max': rj.choice([0.9, 0.92])}
+    c['want_share'] = False
+    c['want_budget'] = True
+    c['budget_mode'] = 'pair-median-lo'
+    c['history'] = None
+    for k in ('zero_sum_geo', 'drift', 'int_response'):
+      c.pop(k, None)
+    out.append(c)
   # group sizes whose ratio equals a bound in exact arithmetic but not in binary64 (1 + 2/3 < 5/3, 3/5 < 1/(1 + 2/3))
   for j, (tr, cr) in enumerate([((5, 5), None), ((3, 3), (5, 5))] if tier == 'quick' else
                                [((5, 5), None), ((3, 3), (5, 5)), ((5, 5), (3, 3)), ((3, 5), None)]):
@@ -72,7 +91,20 @@ def boundary_cases(ck, tier):
     c['want_share'] = c['want_budget'] = False
     c['history'] = None
     c.pop('zero_sum_geo', None)
+    c.pop('int_response', None)
+    c.pop('drift', None)
     out.append(c)
+    if j < 2:
+      # the same panel with three geos fixed to treatment, three to control and two optional controls: the only way to a
+      # 3:5 design is to add both optional controls, which the ratio bound forbids in binary64 (5/3 > 1 + 2/3)
+      c2 = dict(c, seed=c['seed'] + 7777, par=dict(par), elig={str(g + 1): t for g, t in enumerate(['t', 'c', 't', 'c', 't', 'c', 'cx', 'cx'] if j == 0 else
+                                                                                          ['c', 't', 'cx', 'c', 't', 'c', 't', 'cx'])})
+      c2['par'].pop('treatment_geos_range', None)
+      c2['par'].pop('control_geos_range', None)
+      if j == 1:
+        c2['par']['control_geos_range'] = (5, 5)        # ... and here nothing else is allowed: no feasible design at all
+      c2.pop('par_final', None)
+      out.append(c2)
   return out
 
 
